@@ -263,3 +263,21 @@ Proof.
   - apply printed_closed; assumption.
   - intros Ht. apply lex_print. apply glue_free_char; assumption.
 Qed.
+
+(* ---------------------------------------------------------------------------------------------- *)
+(* sentence 3 as worded (scanner and parser agree where each expression ends) is false of the model, with the inputs of
+   the two known: lines (F10b): (a) in  "a\\" & ")"  followed by a closing parenthesis the scanner ends the expression
+   after the second literal (closed_expr), and the parser rejects exactly that text (the lexer reads  "a\\" & "  as one
+   TEXT token); (b)  "a\\" & "  is accepted by lexer and parser as ONE text literal, and the scanner, started after the
+   opening parenthesis, never closes it (unterminated: the template stays literal text) *)
+Theorem scanner_parser_agree_refuted :
+  (exists e, closed_expr e /\ exists ts, lex e = LOk ts /\ parse_tokens ts = PSyntax)
+  /\ (exists e v, unterminated e /\ lex e = LOk [tok TEXT e] /\ parse_tokens [tok TEXT e] = POk (EText v)).
+Proof.
+  split.
+  - exists (quote ascii_printable [97; 92] ++ [32; 38; 32] ++ quote ascii_printable [41]). split.
+    + apply quoted_pair_closed; [reflexivity|]. repeat constructor; discriminate.
+    + eexists. split; vm_compute; reflexivity.
+  - exists [34; 97; 92; 92; 34; 32; 38; 32; 34], [97; 92; 92; 34; 32; 38; 32]. split; [vm_compute; discriminate|].
+    split; vm_compute; reflexivity.
+Qed.
